@@ -534,6 +534,7 @@ type c06Base struct {
 	Transport, Shape string
 	In, Out          []int
 	Limit            int
+	Scale            bool // long stream or large messages: coarse read schedules only
 }
 
 func c06Bases(thorough bool) []c06Base {
@@ -580,6 +581,25 @@ func c06Bases(thorough bool) []c06Base {
 			}
 		}
 	}
+	// scale: 40-message streams and messages of 5 kB / 70 kB (beyond every pooled buffer, the 16 KiB
+	// HTTP/2 frame size, 64 KiB WebSocket length form) on every transport, coarse schedules
+	var many []int
+	for i := 0; i < 40; i++ {
+		many = append(many, []int{0, 1, 5, 70, 300}[i%5])
+	}
+	for _, tr := range []string{"grpc", "grpc-gzip", "grpc+json", "grpc+rev", "grpc-xrot", "web", "web-gzip", "webtext", "http-json", "http-proto", "http-json-gzip", "http-proto-gzip", "http-json-nl", "ws", "ws-frag"} {
+		gzHTTP := strings.HasSuffix(tr, "-gzip") && strings.HasPrefix(tr, "http-")
+		if !isWS(tr) {
+			out = append(out, c06Base{Transport: tr, Shape: "cs", In: many, Out: []int{3}, Scale: true},
+				c06Base{Transport: tr, Shape: "cs", In: []int{5000, 70000, 1}, Out: []int{3}, Scale: true})
+		}
+		out = append(out, c06Base{Transport: tr, Shape: "pingpong", In: many, Out: many, Scale: true},
+			c06Base{Transport: tr, Shape: "pingpong", In: []int{70000, 1, 5000}, Out: []int{5000, 70000, 0}, Scale: true})
+		if tr != "http-json-nl" && !gzHTTP {
+			out = append(out, c06Base{Transport: tr, Shape: "ss", In: []int{5}, Out: many, Scale: true},
+				c06Base{Transport: tr, Shape: "ss", In: []int{70000}, Out: []int{70000, 5000}, Scale: true})
+		}
+	}
 	// HttpBody chunking: uploads of every length 0..3*limit+1 and the raw passthrough
 	for _, lim := range []int{4, 8} {
 		for n := 0; n <= 3*lim+1; n++ {
@@ -612,7 +632,7 @@ func isWS(transport string) bool { return transport == "ws" || transport == "ws-
 
 func runC06(c *Ctx) {
 	r := c.Run
-	r.Rule("transport{gRPC identity/gzip/+json/+a custom codec/a custom compressor, gRPC-web identity/gzip, gRPC-web-text, HTTP JSON stream (also newline-delimited with whitespace after the last object), HTTP varint-delimited protobuf, both also inside a gzip Content-Encoding (complete streams only), HttpBody chunking (limits 4, 8, 64; uploads of every length 0..3·limit+1), AsHTTPBodyReader/Writer passthrough, WebSocket with whole and with fragmented (2-4 frames) messages} × shape{client-, server-, bidi batch, bidi ping-pong} × client sequence (0..3 messages, payloads 0/1/5/300, and a string message with backslashes, quotes and braces) × handler sequence (0..3 replies) × read schedule (all 2^(n-1) partitions for streams <= 10 (thorough 13) bytes; uniform chunk sizes, every single cut and every pair of cuts (bounded) beyond) × EOF convention × truncation at every offset followed by EOF or a connection error; plus 3-message streams whose 1st/2nd/3rd message exceeds a receive limit of 40 with a field boundary exactly at the limit (9 transports); states = (transport, bytes consumed, messages delivered); distinct = (transport, shape, sequence) bases")
+	r.Rule("transport{gRPC identity/gzip/+json/+a custom codec/a custom compressor, gRPC-web identity/gzip, gRPC-web-text, HTTP JSON stream (also newline-delimited with whitespace after the last object), HTTP varint-delimited protobuf, both also inside a gzip Content-Encoding (complete streams only), HttpBody chunking (limits 4, 8, 64; uploads of every length 0..3·limit+1), AsHTTPBodyReader/Writer passthrough, WebSocket with whole and with fragmented (2-4 frames) messages} × shape{client-, server-, bidi batch, bidi ping-pong} × client sequence (0..3 messages, payloads 0/1/5/300, and a string message with backslashes, quotes and braces) × handler sequence (0..3 replies) × [scale: 40-message streams in both directions and 5 kB / 70 kB messages on every transport and shape, with uniform read sizes 1..65536 and four truncation points] × read schedule (all 2^(n-1) partitions for streams <= 10 (thorough 13) bytes; uniform chunk sizes, every single cut and every pair of cuts (bounded) beyond) × EOF convention × truncation at every offset followed by EOF or a connection error; plus 3-message streams whose 1st/2nd/3rd message exceeds a receive limit of 40 with a field boundary exactly at the limit (9 transports); states = (transport, bytes consumed, messages delivered); distinct = (transport, shape, sequence) bases")
 	r.Assume("an empty client stream is sent as an empty chunked body (Content-Length unknown)", "client-streaming with a unary reply over WebSocket is excluded: the only way for a WebSocket client to end its stream is to close, which also ends the reply channel", "HTTP/2 flow control and real half-close are seen only in the conformance runs")
 	fullMax := 10
 	if c.Thorough() {
@@ -663,6 +683,29 @@ func runC06(c *Ctx) {
 		for _, eofWith := range []bool{false, true} {
 			tc.EOFWith = eofWith
 			tc.MaxRead, tc.Truncate, tc.TruncErr = 0, -1, false
+			if b.Scale {
+				tc.Cuts = nil
+				for _, mr := range []int{0, 1, 7, 64, 1000, 4096, 16384, 65536} {
+					if mr == 1 && n > 20000 {
+						continue
+					}
+					tc.MaxRead = mr
+					run()
+				}
+				if b.Transport == "http-json-nl" || b.Shape == "ss" && strings.HasPrefix(b.Transport, "http-") || strings.HasPrefix(b.Transport, "http-") && strings.HasSuffix(b.Transport, "-gzip") {
+					continue
+				}
+				for _, t := range []int{1, n / 3, n / 2, n - 1} {
+					for _, terr := range []bool{false, true} {
+						if terr && eofWith {
+							continue
+						}
+						tc.Truncate, tc.TruncErr, tc.MaxRead = t, terr, 4096
+						run()
+					}
+				}
+				continue
+			}
 			if n <= fullMax {
 				env.AllCutSets(n, func(cuts []int) { tc.Cuts = cuts; run() })
 			} else {
